@@ -135,15 +135,61 @@ def run(F, R, tier):
     # ---- (b) per-packet typestate --------------------------------------------------------------------------------------------
     interesting = {"next_packet", "set_curr_pkt", "update_builtin_var", "push_filter_frame", "run", "pop_filter_frame", "write_all",
                    "assignop:count+=", "from_file", "new_with_header", "new_with_magic", "_print"}
-    b = H.body_inl(F, rf, keep=interesting)
+    # normal form: helpers of main.rs in place, closures handed to them applied, Result combinators written as matches
+    b0 = H.body_inl(F, rf, keep=interesting)
+    ev0 = events(b0, interesting)
+    b = H.desugar_combinators(H.beta(H.unlet(H.split_tuple_lets(b0))))
     ev = events(b, interesting)
     seq = [(n, d) for n, d, _ in ev]
     per_packet = [n for n, d in seq if d == 1]
-    per_filter = [n for n, d in seq if d == 2]
     R.ob("packet-typestate", "per packet: next_packet → set_curr_pkt → NP update → filters → count += 1",
          per_packet == ["next_packet", "set_curr_pkt", "update_builtin_var", "assignop:count+="], str(per_packet), F.loc(rf))
-    R.ob("packet-typestate", "per filter: push_filter_frame → run → pop_filter_frame → write_all",
-         per_filter == ["push_filter_frame", "run", "pop_filter_frame", "write_all"], str(per_filter), F.loc(rf))
+    lets_ = {x["pat"]["id"]: x["init"] for x in H.walk(b) if x.get("k") == "let" and x.get("pat", {}).get("k") == "bind" and x.get("init") is not None}
+    # pattern variables: id -> (pattern constructor, scrutinee) for `Ok(x)` / `Some(x)` arms, if-let and let-else patterns
+    payload = {}
+    for x in H.walk(b):
+        cands = []
+        if x.get("k") == "match" and not H.is_try(x):
+            cands = [(a_["pat"], x["scrut"]) for a_ in x["arms"]]
+        elif x.get("k") == "let" and x.get("pat", {}).get("k") in ("ts", "struct") and x.get("init") is not None:
+            cands = [(x["pat"], x["init"])]
+        for pt, sc_ in cands:
+            q = pt
+            while q.get("k") in ("ref", "deref"):
+                q = q["pat"]
+            if q.get("k") in ("ts", "struct"):
+                subs = q.get("pats") or [f_.get("pat") for f_ in q.get("fields", [])]
+                if len(subs) == 1 and subs[0] and subs[0].get("k") == "bind":
+                    payload[subs[0]["id"]] = (H.last(q["res"].get("path") or ""), sc_)
+
+    def resolve(e, d=0):
+        """the expression a value is a copy of: borrows, clones and named intermediates are looked through; the payload
+        variable of an `Ok(x)` / `Some(x)` pattern resolves to ("payload", ctor, <resolved scrutinee>)"""
+        e = H.strip(e)
+        if d > 8:
+            return e
+        if H.is_local(e):
+            i = H.local_id(e)
+            if i in payload:
+                return ("payload", payload[i][0], resolve(payload[i][1], d + 1))
+            if i in lets_:
+                init = lets_[i]
+                leaves = [l_ for l_ in H.value_leaves(init)] if H.strip(init).get("k") in ("match", "if", "block") else None
+                if leaves and len(leaves) == 1:
+                    return resolve(leaves[0], d + 1)
+                if leaves is None:
+                    return resolve(init, d + 1)
+        return e
+
+    def is_call(r_, name):
+        return isinstance(r_, dict) and r_.get("k") in ("call", "mcall") and (r_.get("m") or H.last(r_.get("callee") or "")) == name
+
+    def is_param(r_, names):
+        # a parameter of run_filters, or a field of one (`filter_set.per_packet`)
+        while isinstance(r_, dict) and r_.get("k") == "field":
+            r_ = H.strip(r_["e"])
+        return isinstance(r_, dict) and H.is_local(r_) and r_["res"].get("id") in {pr.get("id") for pr in rf["hir"]["params"]}
+
     # NP update passes `count`; count starts at 1
     np_calls = [n for nm, d, n in ev if nm == "update_builtin_var" and d == 1]
     ok = len(np_calls) == 1 and H.render(np_calls[0]["args"]) == "BuiltinVarType::NP, Rc::new(Object::Integer(count))"
@@ -151,36 +197,94 @@ def run(F, R, tier):
     R.ob("packet-counter", "NP := count, count starts at 1 and is incremented by 1", ok and inits == ["1"] and
          [H.render(n["r"]) for nm, d, n in ev if nm == "assignop:count+="] == ["1"], "NP update %s; init %s" % (
              H.render(np_calls[0]["args"]) if np_calls else None, inits), F.loc(rf))
-    # the filter loop iterates the filters vector in order
-    loops = [x for x in H.walk(b) if x.get("k") == "match" and x.get("src", "").startswith("ForLoop")]
+    # the filter loop: the `for` whose body pushes the filter frame; it walks a vector handed to run_filters front to back
+    loops = [x for x in H.walk(b) if x.get("k") == "match" and x.get("src", "").startswith("ForLoop") and "into_iter" in H.render(x["scrut"])[:60]
+             and any(c_.get("k") == "mcall" and c_["m"] == "push_filter_frame" for c_ in H.walk(x))]
     its = [H.render(x["scrut"]) for x in loops]
-    R.ob("filter-order", "filters are run in vector order", any("into_iter(&filters)" in t for t in its), str(its), F.loc(rf))
+    in_order = False
+    fbody, fvar = None, None
+    if len(loops) == 1:
+        sc_ = H.strip(loops[0]["scrut"])
+        it_ = (([sc_["recv"]] if sc_.get("k") == "mcall" else []) + sc_.get("args", []))[0] if sc_.get("k") in ("call", "mcall") else None
+        while it_ is not None and it_.get("k") == "mcall" and it_["m"] in ("iter",) and not it_.get("args"):
+            it_ = it_["recv"]
+        in_order = it_ is not None and is_param(H.strip(it_), None)
+        for x in H.walk(loops[0]):
+            if x.get("k") == "match" and x is not loops[0]:
+                for a_ in x["arms"]:
+                    q = a_["pat"]
+                    if q.get("k") in ("ts", "struct") and H.last(q["res"].get("path") or "") == "Some":
+                        fbody = a_["body"]
+                        fvar = [y["id"] for y in H.walk(q) if y.get("k") == "bind"]
+                if fbody is not None:
+                    break
+    R.ob("filter-order", "filters are run in vector order", in_order, str(its), F.loc(rf))
     # set_curr_pkt receives the packet just read
     sc = [n for nm, d, n in ev if nm == "set_curr_pkt"]
-    R.ob("packet-typestate", "set_curr_pkt(pkt) is the packet returned by next_packet", len(sc) == 1 and H.render(sc[0]["args"]) == "pkt.clone()",
+    def is_read_packet(e):
+        r_ = resolve(e)
+        return isinstance(r_, tuple) and r_[0] == "payload" and r_[1] == "Ok" and is_call(r_[2], "next_packet")
+    R.ob("packet-typestate", "set_curr_pkt(pkt) is the packet returned by next_packet", len(sc) == 1 and len(sc[0]["args"]) == 1 and is_read_packet(sc[0]["args"][0]),
          H.render(sc[0]["args"]) if sc else "", F.loc(rf))
-    # ---- (c) write iff Ok(true), only through pcap_out ---------------------------------------------------------------------------
+    # ---- per filter, path by path: push_filter_frame → run → pop_filter_frame → write_all; (c) write iff Ok(true), through pcap_out
     wr = [n for nm, d, n in ev if nm == "write_all"]
-    ok = False
-    det = ""
-    for m in H.walk(b):
-        if m.get("k") == "match" and not H.is_try(m) and H.strip(m["scrut"]).get("k") == "mcall" and H.strip(m["scrut"])["m"] == "pop_filter_frame" and any(
-                x is wr[0] for a in m["arms"] for x in H.walk(a["body"])) if wr else False:
-            arms = {H.render_pat(a["pat"]): a for a in m["arms"]}
-            det = str(sorted(arms))
-            t = arms.get("v1::Ok(true)")
-            f_ = arms.get("v1::Ok(false)")
-            # `if let Some(out) = <pcap_out, possibly borrowed> { out.write_all(pkt) }`
-            through_out = False
-            if t is not None:
-                for y in H.walk(t["body"]):
-                    c_ = y.get("c") if y.get("k") == "if" else None
-                    if c_ is not None and c_.get("k") == "let" and H.render(H.strip(c_["init"])) == "pcap_out":
-                        outs = [z["id"] for z in H.walk(c_["pat"]) if z.get("k") == "bind"]
-                        through_out = H.local_id(H.strip(wr[0]["recv"])) in outs and any(x is wr[0] for x in H.walk(y["t"]))
-            ok = t is not None and any(x is wr[0] for x in H.walk(t["body"])) and f_ is not None and H.render(f_["body"]) == "" and \
-                through_out and H.render(H.strip(wr[0]["args"][0])) == "pkt"
-    R.ob("write-iff-selected", "the packet is written exactly in the Ok(true) arm, through pcap_out", ok and len(wr) == 1, det, F.loc(rf))
+    det, ok_seq, ok_write = "", False, False
+    if fbody is not None:
+        ORDER = ["push_filter_frame", "run", "pop_filter_frame", "write_all"]
+        seqs = set()
+        problems = []
+        n_sel = n_written = 0
+        for evs, ex in H.paths(fbody, lambda c: None, decisions=True, limit=4000):
+            calls = [(e_[1] if isinstance(e_[1], str) else "", e_[2]) for e_ in evs if e_[0] == "call"]
+            names = [H.last(c_[0]) for c_ in calls if H.last(c_[0]) in ORDER and (c_[1].get("k") == "mcall")]
+            seqs.add(tuple(names))
+            if names != ORDER[:len(names)]:
+                problems.append("a path runs %s" % names)
+            # what the match on the popped result decided on this path
+            popped = None
+            out_some = None
+            for e_ in evs:
+                if e_[0] == "arm":
+                    m_, ai_ = e_[1], e_[2]
+                    r_ = resolve(m_["scrut"])
+                    pt = H.render_pat(m_["arms"][ai_]["pat"])
+                    if is_call(r_, "pop_filter_frame"):
+                        popped = pt
+                    if H.is_local(H.strip(r_ if isinstance(r_, dict) else {})) and H.strip(r_)["res"].get("name") == "pcap_out":
+                        out_some = "Some" in pt
+                elif e_[0] == "if" and e_[1]["c"].get("k") == "let":
+                    c_ = e_[1]["c"]
+                    r_ = resolve(c_["init"])
+                    pt = H.render_pat(c_["pat"])
+                    if is_call(r_, "pop_filter_frame"):
+                        popped = pt if e_[2] else "not " + pt
+                    if isinstance(r_, dict) and H.is_local(H.strip(r_)) and H.strip(r_)["res"].get("name") == "pcap_out":
+                        out_some = ("Some" in pt) == e_[2]
+            wrote = names.count("write_all")
+            if popped is not None and re.fullmatch(r"(v1::)?Ok\(true\)", popped):
+                n_sel += 1
+                if out_some is not False and wrote != 1:
+                    problems.append("selected (Ok(true)) with an output stream, but %d writes" % wrote)
+                if out_some is False and wrote:
+                    problems.append("written without an output stream")
+                n_written += wrote
+            elif wrote:
+                problems.append("written on a path where pop_filter_frame gave %s" % popped)
+        ok_seq = not [p_ for p_ in problems if p_.startswith("a path runs")] and tuple(ORDER) in seqs and tuple(ORDER[:3]) in seqs
+        ok_write = not problems and n_sel >= 1 and n_written >= 1 and len(wr) == 1
+        if ok_write:
+            # through pcap_out, and what is written is the packet just read
+            recv = resolve(wr[0]["recv"])
+            ok_write = isinstance(recv, tuple) and recv[0] == "payload" and recv[1] == "Some" and isinstance(recv[2], dict) and \
+                H.is_local(H.strip(recv[2])) and H.strip(recv[2])["res"].get("name") == "pcap_out" and len(wr[0]["args"]) == 1 and is_read_packet(wr[0]["args"][0])
+            if not ok_write:
+                problems.append("write_all(%s) on %s" % (H.render(wr[0]["args"]), H.render(wr[0]["recv"])))
+        det = "; ".join(sorted(set(problems)))[:300] or "call sequences over the paths of one filter: %s" % sorted(seqs)
+    R.ob("packet-typestate", "per filter: push_filter_frame → run → pop_filter_frame → write_all", ok_seq, det, F.loc(rf))
+    R.ob("write-iff-selected", "the packet is written exactly in the Ok(true) arm, through pcap_out", ok_write, det, F.loc(rf))
+    seq_n, ev_n, b_n = seq, ev, b
+    b, ev = b0, ev0
+    seq = [(n, d) for n, d, _ in ev]
     # ---- (d) -s ----------------------------------------------------------------------------------------------------------------------
     lets = [x for x in H.walk(b) if x.get("k") == "let" and x.get("pat", {}).get("name") == "pcap_out"]
     ok = len(lets) == 1 and H.render(lets[0]["init"]).startswith("if skip_pcap {v1::None} else {")
@@ -239,12 +343,15 @@ def run(F, R, tier):
                         tab[a["pat"]["lit"]["v"]] = H.last(H.ctor_of(H.strip(a["body"])) or "?")
         R.ob("builtin-var-names", "From<usize> is the inverse of the discriminant", all(tab.get(d) == n for n, d in vs if n != "Max"), str(tab), F.loc(fu))
     # ---- (f) end filter: once, after the loop ----------------------------------------------------------------------------------------------------
-    after = [(n, d) for n, d in seq if d == 0]
+    after = [(n, d) for n, d in seq_n if d == 0]
+    ev = ev_n
     tail = [n for n, d in after if n in ("push_filter_frame", "run", "pop_filter_frame")]
     R.ob("end-filter-once", "end filter: push → run → pop, once, outside the packet loop", tail == ["push_filter_frame", "run", "pop_filter_frame"],
          str(after), F.loc(rf))
-    ifs = [x for x in H.walk(b) if x.get("k") == "if" and H.render(x["c"]).startswith("let v1::Some(filter) = filter_end")]
-    R.ob("end-filter-once", "end filter is taken from filter_end", len(ifs) == 1, "", F.loc(rf), nontrivial=False)
+    pushes0 = [n for nm, d, n in ev if nm == "push_filter_frame" and d == 0]
+    src_ = resolve(pushes0[0]["args"][0]) if len(pushes0) == 1 and pushes0[0].get("args") else None
+    from_end = isinstance(src_, tuple) and src_[0] == "payload" and src_[1] == "Some" and isinstance(src_[2], dict) and is_param(H.strip(src_[2]), None)
+    R.ob("end-filter-once", "end filter is taken from filter_end", from_end, "", F.loc(rf), nontrivial=False)
     # ---- (h) the emitted filter code leaves exactly one value: delegated to the emission verifier (C07) --------------------------------------------
     # ---- (i) "writes the packet, as modified so far": what is written is the packet's current state -------------------------------------
     # C15's rules on the output path (write_all serialises the packet when it is written, through From<&PcapPacket>, whose
